@@ -745,6 +745,17 @@ fn run_spec(l: &mut Local, sp: &Spec) {
                 continue;
             }
             l.eval();
+            if rd == Rd::File {
+                // The file route reads the whole data set in one call and cannot be stopped at the
+                // first deviation; a misaligned reader then allocates by garbage lengths. It is
+                // therefore run only on streams that the token-level DataSetReader (which it uses)
+                // reads aligned; otherwise the token-level case already reports the failure.
+                let gate = guard(|| run_tokens(sp.ti, strat, Rd::Eager(ValueReadStrategy::Preserved), &stream, &exp));
+                if !matches!(&gate, Ok(v) if v.fail.is_none()) {
+                    l.outcome("file-route-not-run-token-reader-misaligned");
+                    continue;
+                }
+            }
             let r = guard(|| if rd == Rd::File { run_file(sp.ti, strat, &stream, &nodes) } else { run_tokens(sp.ti, strat, rd, &stream, &exp) });
             let class = |kind: &str, at: &str| {
                 json!({"ts": ts.uid(), "vr": sp.vr, "width": sample_width(sp.vr), "content": sp.ckind, "place": sp.place, "container": if sp.place.starts_with("top") { "top" } else if sp.place.starts_with("item") { "item" } else { "pixel-data" },
